@@ -323,6 +323,16 @@ class NPShim:
 
     empty = zeros
 
+    def linspace(self, start, stop, num=50, endpoint=True, **kw):
+        a, b, n = unwrap(start), unwrap(stop), int(unwrap(num) if not isinstance(unwrap(num), Rat) else unwrap(num).const())
+        a = a if isinstance(a, Rat) else P._to_rat(a)
+        b = b if isinstance(b, Rat) else P._to_rat(b)
+        div = (n - 1) if endpoint else n
+        out = np.empty(n, dtype=object)
+        for i in range(n):
+            out[i] = a + (b - a) * P.const(P.Fraction(i, div)) if div else a
+        return out
+
     def full(self, shape, fill_value, dtype=None):
         return self._full(shape, P._to_rat(unwrap(fill_value)) if not isinstance(unwrap(fill_value), Rat) else unwrap(fill_value))
 
